@@ -89,7 +89,8 @@ Definition is_quant (c : N) : bool := (c =? c_lbrace) || (c =? c_qmark) || (c =?
 
 Section Compiler.
 Variable pat : list N.
-Variable fl : flags.
+(* the three flags the parser itself reads (flag x and q are consumed by compile, m by the matcher) *)
+Variable xpath case_i single : bool.
 Let len := length pat.
 
 Definition at_ (i : nat) : option N := nth_error pat i.
@@ -173,7 +174,7 @@ Definition escape (in_sq : bool) (st : cst) : res (esc * cst) :=
             else if e =? 114 then ok (EChar 13)
             else if e =? 116 then ok (EChar 9)
             else if existsb (N.eqb e) single_escapes then ok (EChar e)
-            else if e =? c_dollar then (if f_xpath fl then ok (EChar c_dollar) else Err ESyntax)
+            else if e =? c_dollar then (if xpath then ok (EChar c_dollar) else Err ESyntax)
             else if e =? 115 then ok (ESet s_set)
             else if e =? 83 then ok (ESet (compl s_set))
             else if e =? 105 then ok (ESet name_start_char_set)
@@ -211,7 +212,7 @@ Definition escape (in_sq : bool) (st : cst) : res (esc * cst) :=
             else if e =? 48 then Err ESyntax
             else if (49 <=? e) && (e <=? 57) then
               if in_sq then Err ESyntax
-              else if negb (f_xpath fl) then Err ESyntax
+              else if negb (xpath) then Err ESyntax
               else
                 let '(i, br) := backref_digits len (idx st2) (e - 48) (N.of_nat (parens st - 1)) in
                 let g := N.to_nat br in
@@ -229,7 +230,7 @@ Record ccst := { cc_pos : bool; cc_defrange : bool; cc_rstart : option N;
 
 Definition add_simple (c : option N) (b : cset) : cset :=
   match c with
-  | Some ch => let b1 := add_char ch b in if f_case fl then add_case_closure ch b1 else b1
+  | Some ch => let b1 := add_char ch b in if case_i then add_case_closure ch b1 else b1
   | None => b
   end.
 
@@ -277,7 +278,7 @@ with cc_loop (fuel : nat) (st : cst) (cc : ccst) : res (ccst * cst) :=
                     if e <? s then Err ESyntax
                     else
                       let b := add_range s e (cc_builder cc) in
-                      let b := if f_case fl then add_case_closure_range s e b else b in
+                      let b := if case_i then add_case_closure_range s e b else b in
                       cc_loop f st {| cc_pos := cc_pos cc; cc_defrange := false; cc_rstart := None;
                                       cc_builder := b; cc_addend := cc_addend cc; cc_sub := cc_sub cc |}
                 | _, _ => cc_loop f st cc
@@ -374,7 +375,7 @@ Fixpoint atom_loop (fuel : nat) (st : cst) (ub : list N) : res (list N * cst) :=
                 | _ => Ok (ub, {| idx := idx st; parens := parens st'; bmin := bmin st'; bmax := bmax st';
                                   captures := captures st'; hasbr := hasbr st' |})
                 end
-              else if ((ch =? c_caret) || (ch =? c_dollar)) && f_xpath fl then Ok (ub, st)
+              else if ((ch =? c_caret) || (ch =? c_dollar)) && xpath then Ok (ub, st)
               else atom_loop f (adv 1 st) (ch :: ub)
           end
   end.
@@ -443,7 +444,7 @@ Definition quantify (ret : op) (st : cst) : res (op * cst) :=
         | None =>
             let gr : res (bool * cst) :=
               if Nat.ltb (idx st) len && is_at (idx st) c_qmark then
-                if negb (f_xpath fl) then Err ESyntax else Ok (false, adv 1 st)
+                if negb (xpath) then Err ESyntax else Ok (false, adv 1 st)
               else Ok (true, st) in
             '(greedy, st) <- gr ;;
             let '(mn, mx) :=
@@ -485,7 +486,7 @@ Fixpoint parse_expr (fuel : nat) (toplevel : bool) (st : cst) : res (op * cst) :
           | Some c =>
               if c =? c_lparen then
                 if Nat.ltb (idx st + 2) len && is_at (idx st + 1) c_qmark && is_at (idx st + 2) c_colon then
-                  if negb (f_xpath fl) then Err ESyntax else Ok (Some false, O, adv 3 st)
+                  if negb (xpath) then Err ESyntax else Ok (Some false, O, adv 3 st)
                 else
                   Ok (Some true, parens st,
                       {| idx := S (idx st); parens := S (parens st); bmin := bmin st; bmax := bmax st;
@@ -549,9 +550,9 @@ with parse_terminal (fuel : nat) (st : cst) : res (op * cst) :=
       match at_ (idx st) with
       | None => Panic 38
       | Some c =>
-          if (c =? c_dollar) && f_xpath fl then Ok (OEol, adv 1 st)
-          else if (c =? c_caret) && f_xpath fl then Ok (OBol, adv 1 st)
-          else if c =? c_dot then Ok (OCls (if f_single fl then all else dot_set), adv 1 st)
+          if (c =? c_dollar) && xpath then Ok (OEol, adv 1 st)
+          else if (c =? c_caret) && xpath then Ok (OBol, adv 1 st)
+          else if c =? c_dot then Ok (OCls (if single then all else dot_set), adv 1 st)
           else if c =? c_lbrack then ('(s, st') <- parse_cc (len + len + 4) st ;; Ok (OCls s, st'))
           else if c =? c_lparen then parse_expr f false st
           else if c =? c_rparen then Err ESyntax
@@ -594,7 +595,7 @@ Definition compile (unopt : bool) (fl : flags) (pattern : list N) : res program 
     Ok (mk pattern (make_sequence (OAtom pattern) OEnd) 1%nat (f_case fl) (f_multi fl) true false)
   else
     let pat := if f_ws fl then strip_ws pattern 0%Z false else pattern in
-    '(o, st) <- parse_expr pat fl (8 * length pat + 16) true st_init ;;
+    '(o, st) <- parse_expr pat (f_xpath fl) (f_case fl) (f_single fl) (8 * length pat + 16) true st_init ;;
     if negb (Nat.eqb (idx st) (length pat)) then Err ESyntax
     else
       let o' := if unopt then o else optimize (f_case fl) o in
